@@ -26,3 +26,9 @@ def fill(check, na):
           "with the (single lost, follower distance 1..17) NACK grid enumerated in slices.",
           "Values are generated inside the wire ranges; padding bytes are random by design and not compared; extensions not configured in the id map are not expected to survive.",
           "DESIGN.md 3/C07")
+    check("C08", "round-trip oracle on generated chunks of every class through serialize_packet/parse_packet + bit-burst injection (every position x every length 1..32) with a counting wrapper on the chunk constructors",
+          "Held on the packets and bursts generated: every chunk class round-trips field-equal and byte-identical; every injected "
+          "burst is rejected with the checksum error before any chunk constructor runs. Positions and lengths are enumerated per "
+          "sampled packet; interiors are sampled except for short bursts on short packets (all interiors, exhaustive sub-space).",
+          "google-crc32c trusted; the full space of packets x bursts is sampled, never exhausted.",
+          "DESIGN.md 3/C08")
